@@ -20,7 +20,7 @@ from hsim.core.runner import RunResult
 PROPERTY = "C04"
 CHUNK = {"quick": 400, "thorough": 1000}
 PROBES = ["eviction", "back_with_later_injection", "ooo_below_injection", "retransmit_after_injection",
-          "skip_ahead", "inject_burst"]
+          "skip_ahead", "inject_burst", "first_copy_is_a_resend", "resent_flag_on_retransmission"]
 COMPONENTS = {
     "real": ["hippolyzer.lib.proxy.circuit.ProxiedCircuit.send/prepare_message",
              "hippolyzer.lib.proxy.circuit.InjectionTracker (small maxlen)",
@@ -53,6 +53,7 @@ def gen_plan(rng: random.Random, tier: str) -> dict:
     p_skip = rng.choice([0.0, 0.05, 0.2])
     p_dup = rng.choice([0.0, 0.1, 0.3])
     p_delay = rng.choice([0.0, 0.3, 0.7])
+    p_lost_original = rng.choice([0.0, 0.1, 0.3])
     steps = []
     t = 0.0
     cur = 0
@@ -63,17 +64,24 @@ def gen_plan(rng: random.Random, tier: str) -> dict:
             for _ in range(burst):
                 steps.append({"at": t, "op": "inject", "reliable": rng.random() < 0.3})
             continue
+        resent = False
         if cur and rng.random() < p_old:
             o = rng.randint(max(1, cur - 12), cur)
+            resent = rng.random() < 0.7          # an endpoint retransmission carries RESENT
         else:
             cur += 1 if rng.random() >= p_skip else rng.randint(2, 4)
             o = cur
+            # the original may have been lost before the proxy: the first copy it sees is already a resend
+            resent = rng.random() < p_lost_original
         fate = Fate()
         if rng.random() < p_delay:
             fate.delay = draw_delay(rng, 0.08)
         if rng.random() < p_dup:
             fate.dup = draw_delay(rng, 0.2)
-        steps.append({"at": t, "op": "ep", "id": o, "fate": fate.to_json()})
+        st = {"at": t, "op": "ep", "id": o, "fate": fate.to_json()}
+        if resent:
+            st["resent"] = True
+        steps.append(st)
     return {"property": PROPERTY, "maxlen": maxlen, "direction": rng.choice(["OUT", "IN"]), "steps": steps}
 
 
@@ -85,6 +93,10 @@ def simplify_step(step):
             g = dict(f)
             del g["dup"]
             yield {**step, "fate": g}
+    if step["op"] == "ep" and step.get("resent"):
+        s2 = dict(step)
+        s2.pop("resent")
+        yield s2
     if step["op"] == "inject" and step.get("reliable"):
         yield {**step, "reliable": False}
 
@@ -185,10 +197,14 @@ def run_plan(plan: dict) -> RunResult:
                 if inj != (w in window) and (w in window or w not in Jset):
                     return violate("C04/was-injected/wrong", wire=w, got=inj, event=event)
 
-        def on_endpoint_packet(o):
+        def on_endpoint_packet(o, resent=False):
             if stop:
                 return
             msg = Message("CompletePingCheck", Block("PingID", PingID=o & 0xFF), packet_id=o, direction=direction)
+            if resent:
+                from hippolyzer.lib.base.message.msgtypes import PacketFlags
+                msg.send_flags |= PacketFlags.RESENT
+                res.probe("first_copy_is_a_resend" if o not in first_eff else "resent_flag_on_retransmission")
             n0 = len(wire.sent)
             new_high = o > state["max_o"]
             if not new_high and J and first_eff.get(o, 0) and any(j > first_eff[o] for j in J):
@@ -217,12 +233,13 @@ def run_plan(plan: dict) -> RunResult:
 
         class _EP:
             def datagram_received(self, data, src):
-                on_endpoint_packet(struct.unpack("!I", data)[0])
+                on_endpoint_packet(struct.unpack("!I", data[:4])[0], resent=len(data) > 4 and data[4] == 1)
 
         net.attach(PROXY_IN, _EP())
 
         def do_ep(step):
-            net.send(EP, PROXY_IN, struct.pack("!I", step["id"]), Fate.from_json(step.get("fate")))
+            net.send(EP, PROXY_IN, struct.pack("!IB", step["id"], 1 if step.get("resent") else 0),
+                     Fate.from_json(step.get("fate")))
 
         def do_inject(step):
             if stop:
